@@ -379,8 +379,29 @@ def run(ctx):
         # the two text formats: model (View/Text.lean) vs implementation, line by line, and the two converters
         from harness.props import c09text
         c09text.run_text(ctx, drv=drv, pool=pool)
+        # the serialised path: what the command line writes and reads back (theorems Props/C09Cli.lean)
+        from harness.props import c09cli
+        c09cli.run_cli(ctx, drv, pool, extra_messages=cli_sample(ctx))
     finally:
         pool.terminate()
+
+
+def keep_for_cli(ctx, tag, b):
+    """messages of the other streams from which run_cli takes its sample"""
+    ctx.__dict__.setdefault('_c09_cli_msgs', []).append((tag, b))
+
+
+def cli_sample(ctx):
+    msgs = ctx.__dict__.get('_c09_cli_msgs', [])
+    quick = ctx.tier == 'quick'
+    want = {'shapes': 60 if quick else 400, 'bitmaps': 30 if quick else 600, 'generated': 50 if quick else 1200, 'file': 25 if quick else 400}
+    rng = ctx.rng('cli-sample')
+    out = []
+    for stream, k in sorted(want.items()):
+        pool_ = [(t, b) for t, b in msgs if t.split(':')[0] == stream]
+        rng.shuffle(pool_)
+        out += pool_[:k]
+    return out
 
 
 def make_shrinker(ctx, drv, treq, parts, forced, n, comp):
@@ -424,6 +445,8 @@ def run_shapes(ctx, drv, treq):
         ctx.count('shape:' + tag)
         if obs.get('wire', 'ok') != 'ok':
             ctx.count('wire-fails')
+        elif obs.get('decode') == 'ok':
+            keep_for_cli(ctx, 'shapes:' + tag, b)
         check_one(ctx, ids, b, obs, model, tag=tag)
 
 
@@ -462,6 +485,8 @@ def run_generated(ctx, drv, treq, pool):
                 continue
             if obs['wire'] != 'ok':
                 ctx.count('wire-fails')
+            elif obs.get('enc_ok'):
+                keep_for_cli(ctx, 'generated', b)
             forced = {k: v for k, v in c.forced}
             check_one(ctx, c.ids, b, obs, model, shrinker=make_shrinker(ctx, drv, treq, c.parts, forced, c.n, c.comp))
 
@@ -508,6 +533,8 @@ def run_bitmaps(ctx, drv, treq, pool):
                 continue
             if obs['wire'] != 'ok':
                 ctx.count('wire-fails')
+            elif obs.get('enc_ok'):
+                keep_for_cli(ctx, 'bitmaps', b)
             ow = obs.get('owners') or {}
             ctx.count('bitmap:links', ow.get('links', 0))
             if ow.get('subsets_differing'):
@@ -525,6 +552,7 @@ def corpus_item(path):
 
 
 QUICK_MAX_VALUES = 30000
+CLI_MAX_VALUES = 6000   # sample files taken through the command line pipeline (run_cli)
 
 
 def corpus_worker(args):
@@ -578,6 +606,8 @@ def run_corpus(ctx, drv, pool):
             ctx.count('corpus:attribute-on-factor')
         if not obs.get('enc_ok', True):
             ctx.count('corpus:encoder-refused')
+        elif obs.get('wire') == 'ok' and sum(obs['lens']) <= CLI_MAX_VALUES:
+            keep_for_cli(ctx, 'file:' + name, corpus_item(path))
         check_one(ctx, ids, None, obs, model, tag='file:' + name)
 
 
@@ -600,6 +630,9 @@ def replay(ctx, path):
     if 'format' in rep:
         from harness.props import c09text
         return c09text.replay_text(ctx, rep)
+    if rep.get('cli'):
+        from harness.props import c09cli
+        return c09cli.replay_cli(ctx, rep)
     if rep.get('message_hex'):
         b = bytes.fromhex(rep['message_hex'])
         treq = tables_io.group_request()
